@@ -1,4 +1,5 @@
 import functools
+import re
 import threading
 from contextlib import contextmanager
 from contextvars import ContextVar
@@ -6,10 +7,30 @@ from contextvars import ContextVar
 from .interpret import Immediate, Interactor, Total
 from .selector import check_element, select, verify
 from .transform import StackedTransforms, SyncedStackedTransforms, transform
+from .tags import get_tags
 from .utils import autocreate, is_tooled, keyword_decorator
 
 # Cache whether functions match selectors
 _selector_fit_cache = {}
+
+
+def _return_category(fn):
+    """The category (tag) that the return annotation of fn gives it.
+
+    As for variables, the annotation may be written as a string ("@T",
+    "@T & @U"); with ``from __future__ import annotations`` every
+    annotation is the string of its source.
+    """
+    ann = fn.__annotations__.get("return", None)
+    if isinstance(ann, str):
+        if ann.startswith("@"):
+            names = [t[1:] for t in re.split(r" *& *", ann) if t[:1] == "@"]
+            return get_tags(*names)
+        try:
+            ann = eval(ann, fn.__globals__)
+        except Exception:
+            return None
+    return ann
 
 
 def fits_selector(pfn, selector):
@@ -21,7 +42,7 @@ def fits_selector(pfn, selector):
             outer scope.
     """
     fname = pfn
-    fcat = pfn.__annotations__.get("return", None)
+    fcat = _return_category(pfn)
     fvars = pfn.__ptera_info__
 
     if not check_element(selector.element, fname, fcat):
